@@ -8,6 +8,7 @@ Every check does, in order:
   4. direct search for a failing input on the implementation
   5. evidence + exit code
 """
+import atexit
 import fcntl
 import hashlib
 import json
@@ -209,8 +210,16 @@ def coq_setup():
 
 def coq_check(pid, targets=None, timeout=1500):
     """Translate kernels, build Properties_<pid>.vo with all dependencies (full .vo build), re-run the
-    property file to capture Print Assumptions, gate axioms and forbidden words.
-    Returns dict(ok, theorems, discharged, axioms, broken (name or None), log)."""
+    property file to capture Print Assumptions, gate axioms and forbidden words; then the differential self-test of the
+    translator (tools/translate_selftest.py) on the kernel groups this property depends on.
+    Returns dict(ok, theorems, discharged, axioms, broken (name or None), log, selftest)."""
+    res = _coq_check_core(pid, targets, timeout)
+    _attach_selftest(res, pid, targets)
+    return res
+
+
+def _coq_check_core(pid, targets=None, timeout=1500):
+    """the Coq side proper (see coq_check)"""
     import translate
     res = {"ok": False, "theorems": [], "discharged": 0, "axioms": [], "broken": None, "log": "",
            "kernels": []}
@@ -268,6 +277,134 @@ def coq_check(pid, targets=None, timeout=1500):
     res["discharged"] = len(thms)
     res["ok"] = not res.get("translator_failed", False)
     return res
+
+
+# ---- translator self-test (DESIGN.md 1.2; tools/translate_selftest.py, notes/TRANSLATOR_SELFTEST.md) --------------------
+_SELFTESTS = []            # evidence summaries of every self-test of this process (a check may call coq_check several times)
+_SELFTEST_DISAGREE = []    # coq_check results whose self-test found a disagreement (reported at the latest by Run.finish)
+
+
+_FINISHED = []             # (evidence path, number of self-tests merged into it) of every Run.finish of this process
+
+
+def _selftest_atexit():
+    """a check whose later stages call coq_check after Run.finish wrote the evidence (C01 folds its stages into the file
+    itself): the self-tests of those stages are merged into coverage["translator_selftest"] of that file at exit"""
+    try:
+        if not _FINISHED or len(_SELFTESTS) <= _FINISHED[-1][1]:
+            return
+        path = _FINISHED[-1][0]
+        ev = json.load(open(path))
+        ev.setdefault("coverage", {})["translator_selftest"] = merge_selftests(_SELFTESTS)
+        tmp = path + ".%d.tmp" % os.getpid()
+        json.dump(ev, open(tmp, "w"), indent=1, default=str)
+        os.replace(tmp, path)
+    except Exception:
+        pass
+
+
+atexit.register(_selftest_atexit)
+
+
+def selftest_groups(pid, targets=None):
+    """kernel groups a property's check depends on: the groups of the kernels listed for `pid` and every translated
+    Src_<group> that the property file or a build target (transitively) imports"""
+    import translate
+    if not translate.KERNELS:
+        translate.load_kernels()
+    known = set(k["group"] for k in translate.KERNELS)
+    groups = set(k["group"] for k in translate.KERNELS if pid in k["props"])
+    other = set()
+    files = ["theories/Properties_%s.v" % pid] + [t[:-1] for t in (targets or []) if t.endswith(".vo")]
+    for f in files:
+        for d in coq_deps(f):
+            m = re.match(r"generated/(Src_(\w+))\.v$", d)
+            if m and m.group(2) in known:
+                groups.add(m.group(2))
+            elif d.startswith("generated/"):
+                other.add(d)
+    return sorted(groups), sorted(other)
+
+
+def _attach_selftest(res, pid, targets):
+    """run the translator self-test after the translated files were regenerated and compiled; a disagreement makes the Coq
+    side `not ok` with `broken` naming the kernel, the argument tuple and both values (so every check's existing handling of
+    a broken obligation reports it) and is also reported on its own by report_selftest / Run.finish"""
+    if os.environ.get("VERIF_NO_TRANSLATOR_SELFTEST"):
+        return
+    try:
+        import translate_selftest
+        groups, other = selftest_groups(pid, targets)
+        summ = translate_selftest.run(groups)
+        st = translate_selftest.brief(summ)
+        if other:
+            st["generated_files_not_from_translator"] = other
+        res["selftest"] = st
+        _SELFTESTS.append(st)
+        if summ["disagreements"]:
+            lines = [translate_selftest.describe(d) for d in summ["disagreement_list"]]
+            more = len(summ["kernels_with_disagreement"]) - 1
+            msg = "translator-selftest: " + lines[0] + (" (and %d more kernels)" % more if more > 0 else "")
+            res["ok"] = False
+            res["broken"] = res.get("broken") or msg
+            res["log"] = (res.get("log") or "") + "\ntranslator self-test disagreements:\n" + "\n".join(lines[:20]) + "\n"
+            res["selftest_disagreements"] = [dict(d, what=l) for d, l in zip(summ["disagreement_list"], lines)][:20]
+            res["selftest_workdir"] = summ.get("kept_workdir")
+            _SELFTEST_DISAGREE.append(res)
+            log("translator self-test: %d disagreeing tuples in %s" % (summ["disagreements"], ", ".join(summ["kernels_with_disagreement"][:8])))
+        for e in summ.get("errors", [])[:3]:
+            log("translator self-test (not a verdict): " + e[:400])
+    except Exception as ex:   # the self-test never takes the check down
+        res["selftest"] = {"kernels_tested": 0, "kernels_skipped": {}, "tuples_compared": 0, "tuples_skipped_undefined": 0,
+                           "disagreements": 0, "errors": ["self-test did not run: %r" % (ex,)]}
+        _SELFTESTS.append(res["selftest"])
+        log("translator self-test did not run: %r" % (ex,))
+
+
+def report_selftest(run, cres):
+    """a disagreement between a translated definition and the C++ expression it was translated from is a defect of the
+    translator (or of an atom table): a broken tie, not a failing input of libnano (no_input=True). Idempotent per result."""
+    d = cres.get("selftest_disagreements")
+    if not d or cres.get("selftest_reported"):
+        return
+    cres["selftest_reported"] = True
+    n = len([1 for p, _ in run.violations if "translator-selftest" in os.path.basename(p)])
+    run.violation("translator-selftest" + ("-%d" % n if n else ""),
+                  {"kind": "translator self-test disagreement: a definition emitted by tools/translate.py (or an atom table of "
+                           "tools/kernels/*.py) does not compute what the C++ expression it was translated from computes; "
+                           "the tie between /repo and the Coq model is broken",
+                   "disagreements": d, "summary": cres.get("selftest"), "coq_side_broken": cres.get("broken"),
+                   "workdir_with_generated_cpp_and_coq": cres.get("selftest_workdir"),
+                   "replay_cmd": "python3 tools/translate_selftest.py %s" % " ".join((cres.get("selftest") or {}).get("groups", []))},
+                  no_input=True)
+
+
+def merge_selftests(sts):
+    out = {"kernels_tested": 0, "kernels_skipped": {}, "tuples_compared": 0, "tuples_skipped_undefined": 0, "disagreements": 0}
+    if len(sts) == 1:
+        return dict(sts[0])
+    seen = set()
+    for st in sts:
+        gs = tuple(st.get("groups", []))
+        if gs in seen and not st.get("disagreements"):
+            continue     # the same groups tested again by a later coq_check of the same run (cached): counted once
+        seen.add(gs)
+        for k in ("kernels_tested", "tuples_compared", "tuples_skipped_undefined", "disagreements", "kernels_cached"):
+            out[k] = out.get(k, 0) + (st.get(k) or 0)
+        for r, n in (st.get("kernels_skipped") or {}).items():
+            out["kernels_skipped"][r] = out["kernels_skipped"].get(r, 0) + n
+        for k in ("groups", "errors", "disagreement_samples", "kernels_with_disagreement", "generated_files_not_from_translator"):
+            if st.get(k):
+                out[k] = list(out.get(k, [])) + [x for x in st[k] if x not in out.get(k, [])]
+        for k in ("skipped", "undefined_by_cause"):
+            for r, v in (st.get(k) or {}).items():
+                if isinstance(v, list):
+                    out.setdefault(k, {})[r] = list(out.get(k, {}).get(r, [])) + v
+                else:
+                    out.setdefault(k, {})[r] = out.get(k, {}).get(r, 0) + v
+        out["seconds"] = round(out.get("seconds", 0) + (st.get("seconds") or 0), 2)
+        out["tuples_per_kernel"] = st.get("tuples_per_kernel")
+    return out
 
 
 def coq_deps(vfile):
@@ -389,12 +526,18 @@ class Run:
         return True
 
     def finish(self, level="proof"):
+        # translator self-test: a disagreement that no stage has reported yet is reported now; its summary goes into the evidence
+        for c in _SELFTEST_DISAGREE:
+            report_selftest(self, c)
+        if _SELFTESTS and "translator_selftest" not in self.coverage:
+            self.coverage["translator_selftest"] = merge_selftests(_SELFTESTS)
         wall = time.time() - self.t0
         ev = {"property_id": self.pid, "tier": self.tier, "seed": self.seed, "level": level,
               "coverage": self.coverage, "assumptions": self.assumptions, "wall_s": round(wall, 2),
               "violations": len(self.violations)}
         os.makedirs(os.path.join(OUTDIR, "evidence"), exist_ok=True)
         json.dump(ev, open(os.path.join(OUTDIR, "evidence", self.pid + ".json"), "w"), indent=1, default=str)
+        _FINISHED.append((os.path.join(OUTDIR, "evidence", self.pid + ".json"), len(_SELFTESTS)))
         for fp, what in self.known_hits:
             print("KNOWN-FINDING: property=%s %s" % (self.pid, what))
         # one VIOLATION line per distinct replay, at most 5 printed
@@ -415,6 +558,10 @@ def proof_coverage(run, cres, checker_cmd, extra_trusted=()):
     cov["trusted_base"] = (["Coq 8.16.1 kernel + vm_compute (no native_compute)"]
                            + ["axiom: " + a for a in cres["axioms"]] + list(extra_trusted))
     cov["coq_files"] = cres.get("files", [])
+    if cres.get("selftest") is not None:
+        # differential self-test of the translator on the kernel groups this property depends on (all coq_check calls of the run)
+        cov["translator_selftest"] = merge_selftests(_SELFTESTS) if len(_SELFTESTS) > 1 else cres["selftest"]
+        report_selftest(run, cres)
     if run.tier == "thorough" and cres.get("ok"):
         coqchk_recheck(run)
 
@@ -459,6 +606,7 @@ def coqchk_recheck(run):
 def handle_coq_failure(run, cres):
     """a broken proof obligation / translator: reported as a violation naming the obligation, unless the
     search (done by the caller afterwards) has already produced concrete failing inputs"""
+    report_selftest(run, cres)   # no-op unless the translator self-test of this result found a disagreement
     if cres["ok"]:
         return
     if run.violations:
